@@ -9,7 +9,7 @@
 //!   oneshotenc <ENC> <hex of the UTF-8 input>
 //!       => <hex of the bytes> <encoding-used ident> <had_unmappables 0|1> <borrowed 0|1>
 //! (`Encoding::encode` against `Model.OneShot.encode`; emitted for every input up to 130 bytes and
-//! every 8th longer one — the oracles run on every input).
+//! every 8th (thorough: 24th) longer one — the oracles run on every input).
 use crate::dec::{enc_by_ident, gen_stream, new_decoder, Bom, ALL, ALPHABET};
 use crate::util::*;
 use encoding_rs::*;
@@ -672,11 +672,13 @@ fn gen_decode(out: &mut Out, rng: &mut Rng, thorough: bool) {
 const ENC_CHARS: [&str; 14] = ["\u{80}", "é", "あ", "\u{1F600}", "\u{1B}", "\u{0E}", "\u{0F}", "\u{FFFD}", "¥", "\u{203E}", "ｶ", "\u{E5E5}", "한", "\u{7F}"];
 
 fn gen_encode(out: &mut Out, rng: &mut Rng, thorough: bool) {
-    // operation lines for the model: every input up to 130 bytes, every 8th longer one
+    // operation lines for the model: every input up to 130 bytes, every 8th (thorough: 24th) longer one
+    // (the model driver is quadratic in the number of numeric character references of one text)
+    let every = if thorough { 24 } else { 8 };
     let mut counter = 0usize;
     let mut run = |out: &mut Out, e: &'static Encoding, s: &str| {
         counter += 1;
-        let emit = s.len() <= 130 || counter % 8 == 0;
+        let emit = s.len() <= 130 || counter % every == 0;
         encode_oracles_emit(out, e, s, emit);
     };
     let lens: Vec<usize> = if thorough {
